@@ -561,6 +561,9 @@ func (s c15Shape) tag() string {
 	if v == "" {
 		v = "plain"
 	}
+	if s.ReqPieces >= 3 || s.RespPieces >= 3 {
+		v += "+message-in-3-or-more-data-frames"
+	}
 	if !s.Named {
 		v += "-nameless"
 	}
